@@ -27,7 +27,7 @@ package service
 // the should-total sum is the sum of the records' should-totals; the diff is total minus should-total.
 
 //@ spec recTotal(r klog.Record) int = sum(j, 0, len(r.(*klog.record).entries), klog.edur(r.(*klog.record).entries[j]))
-//@ spec recShould(r klog.Record) int = ite(isnil(r.(*klog.record).shouldTotal), 0, r.(*klog.record).shouldTotal.(klog.shouldTotal).Duration.(*klog.duration).minutes)
+//@ spec recShould(r klog.Record) int = ite(isnil(r.(*klog.record).shouldTotal), 0, klog.dmin(r.(*klog.record).shouldTotal))
 
 // Overflow of the running sum is excluded by the precondition (every prefix sum is small): totals beyond
 // 2^62 minutes are the known limitation F3b.
@@ -40,10 +40,10 @@ package service
 
 //@ func ShouldTotalSum
 //@ requires forall(i, 0, len(rs), typeis(rs[i], *klog.record))
-//@ requires forall(i, 0, len(rs)+1, klog.small(sum(a, 0, i, recShould(rs[a]))))
-//@ ensures typeis(result, klog.shouldTotal) && result.InMinutes() == old(sum(i, 0, len(rs), recShould(rs[i])))
+//@ requires forall(i, 0, len(rs)+1, klog.tiny(sum(a, 0, i, recShould(rs[a])))) && forall(i, 0, len(rs), klog.tiny(recShould(rs[i])))
+//@ ensures typeis(result, klog.shouldTotal) && klog.dmin(result) == old(sum(i, 0, len(rs), recShould(rs[i])))
 //@ loop 1 invariant typeis(total, *klog.duration) && total.(*klog.duration).minutes == old(sum(i, 0, rangeindex+1, recShould(rs[i])))
 
 //@ func Diff
-//@ requires nonnil(should) && nonnil(actual) && klog.small(should.InMinutes()) && klog.small(actual.InMinutes())
-//@ ensures nonnil(result) && result.InMinutes() == actual.InMinutes() - should.InMinutes()
+//@ requires nonnil(should) && nonnil(actual) && klog.small(klog.dmin(should)) && klog.small(klog.dmin(actual))
+//@ ensures nonnil(result) && klog.dmin(result) == klog.dmin(actual) - klog.dmin(should)
